@@ -339,18 +339,35 @@ pub fn run(s: &dyn Subject, ctx: &Ctx) -> Option<DeclReport> {
             rep.sample(format!("{} :: from {:?}@{} -> Ok({:?})", spec.src.replace('\n', " "), p, show_doc(*f, d), r.unwrap()));
         }
     }
-    // probing deserializer: which entry point is used, and that a non-newtype visit yields no value
-    if let Some(log) = s.de_probe() {
-        rep.executions += 1;
+    // probing deserializer: which entry point is used, and what the non-newtype visits hand out
+    if let Some((log, produced)) = s.de_probe() {
+        rep.executions += log.iter().filter(|l| l.contains("rejected") || l.contains("produced")).count() as u64;
         let first = log.first().cloned().unwrap_or_default();
-        rep.executions += log.iter().filter(|l| l.contains("rejected") || l.contains("PRODUCED")).count() as u64;
         if first != format!("deserialize_newtype_struct({})", spec.type_name) {
             rep.violate("probe:not-deserialized-as-newtype-struct", "<probe>".into(), format!("{:?}", log), format!("deserialize_newtype_struct({})", spec.type_name), String::new());
         }
-        if log.iter().any(|l| l.contains("PRODUCED A VALUE")) {
-            rep.violate("probe:non-newtype-visit-produces-value", "<probe>".into(), format!("{:?}", log), "only visit_newtype_struct leads to a value".into(), String::new());
+        // a visit other than visit_newtype_struct may yield a value only if that value passes the guards
+        for (how, v) in &produced {
+            let (allowed, _, _) = ctx.oracle.validate(spec, v);
+            let valid = allowed.iter().any(|o| *o == crate::oracle::Outcome::Accept);
+            let fixed = spec.sans.iter().any(|x| matches!(x, San::With(_))) || crate::oracle::sanitize(spec, v) == *v;
+            if !valid || !fixed {
+                rep.violate("probe:non-newtype-visit-yields-unguarded-value", format!("<probe:{how}>"), v.show(), format!("{:?}", allowed), String::new());
+            }
         }
         rep.guard("probed");
+    }
+    // the sequence form through serde's own SeqDeserializer: whatever comes back must be what the constructor gives
+    for raw in doc_raws(spec, ctx).iter().take(400) {
+        let Some(obs) = s.de_seq_form(raw) else { break };
+        rep.executions += 1;
+        let c = s.ctor(raw);
+        match (&obs, &c) {
+            (DeObs::Ok(v), Obs::Ok(w)) if v.len() == 1 && v[0] == *w => rep.class("seq-form:accepted-like-constructor"),
+            (DeObs::Ok(v), _) => rep.violate("seq-form:yields-value-differing-from-constructor", format!("[{}]", raw.show()), format!("{:?}", v), c.show(), String::new()),
+            (DeObs::Panic(m), _) => rep.violate("seq-form:panic", format!("[{}]", raw.show()), m.clone(), c.show(), String::new()),
+            (DeObs::Err(_), _) => rep.class("seq-form:rejected"),
+        }
     }
     Some(rep)
 }
